@@ -213,10 +213,14 @@ def compute_combined_features(
     if is_prior_heuristic(args):
         full_combination_space = full_combination_space + [tuple for tuple in model_combinations if tuple not in full_combination_space]
 
+    def length_prefixed(feature):
+        # '<len>:<value>' - concatenating such fields is injective, plain concatenation is not ('1'+'11' == '11'+'1')
+        return input_dataframe[feature].astype(str).map(lambda value: f'{len(value)}:{value}')
+
     def combine_features(new_combination):
-        combined_feature = input_dataframe[new_combination[0]].astype(str)
+        combined_feature = length_prefixed(new_combination[0])
         for feature in new_combination[1:]:
-            combined_feature += input_dataframe[feature].astype(str)
+            combined_feature += length_prefixed(feature)
         combined_feature = combined_feature.apply(lambda x: xxhash.xxh64(x.encode('utf-8')).hexdigest())
         ftr_name = join_string.join(new_combination)
         return ftr_name, combined_feature
